@@ -16,6 +16,8 @@ import (
 	"encoding/json"
 	"encoding/pem"
 	"fmt"
+	regattacmd "github.com/jamf/regatta/cmd"
+	"github.com/jamf/regatta/verifvp/vp"
 	"io"
 	"math/big"
 	"net"
@@ -24,6 +26,7 @@ import (
 	"path/filepath"
 	"strings"
 	"time"
+	"verif/harness/sched"
 
 	"github.com/jamf/regatta/regattapb"
 	_ "github.com/jamf/regatta/regattaserver/encoding/proto"
@@ -759,6 +762,77 @@ func runTLSResumeBinary(r *evid.Run, bin string) {
 	}
 }
 
+// runAuthConcurrent: ONE authorization function instance (as installed on a protected service) called
+// by several clients at the same time - one with the right token, one with another token, one with
+// none: every interleaving at statement granularity up to 3 preemptions. Each call is decided on its
+// own metadata only.
+func runAuthConcurrent(r *evid.Run) {
+	vp.Hook = func(label string) {
+		if t := sched.Cur(); t != nil {
+			t.Point(label)
+		}
+	}
+	defer func() { vp.Hook = nil }()
+	const right = "s3cret-token"
+	mkctx := func(authz string) context.Context {
+		if authz == "" {
+			return metadata.NewIncomingContext(context.Background(), metadata.MD{})
+		}
+		return metadata.NewIncomingContext(context.Background(), metadata.Pairs("authorization", authz))
+	}
+	clients := []struct {
+		name  string
+		authz string
+		ok    bool
+	}{{"right-token", "Bearer " + right, true}, {"other-token", "Bearer 0ther-token!", false}, {"no-token", "", false}, {"right-token-again", "Bearer " + right, true}}
+	progs := [][]int{{0, 1}, {0, 2}, {1, 2}, {0, 1, 2}, {0, 1, 3}, {1, 0, 1}}
+	var execs, points int64
+	for _, pg := range progs {
+		var f func(context.Context) (context.Context, error)
+		var errs []error
+		mk := func() sched.Scenario {
+			f = regattacmd.VerifAuthFunc(right)
+			errs = make([]error, len(pg))
+			var sc sched.Scenario
+			for i, ci := range pg {
+				sc.Threads = append(sc.Threads, func(t *sched.T) {
+					t.Point("call-" + clients[ci].name)
+					_, errs[i] = f(mkctx(clients[ci].authz))
+				})
+			}
+			return sc
+		}
+		ex := &sched.Explorer{Mk: mk, MaxBound: 3, Stop: r.Expired,
+			Check: func(x sched.Exec, _ *sched.Scenario) string {
+				cs := map[string]any{"kind": "auth-concurrent", "program": pg, "choices": x.Choices}
+				if x.Deadlock || x.Livelock || x.Panic != "" || x.Diverged != "" {
+					r.Violate("token/concurrent/execution-abnormal", fmt.Sprintf("deadlock=%v livelock=%v panic=%s diverged=%s", x.Deadlock, x.Livelock, x.Panic, x.Diverged), cs)
+					return "abnormal"
+				}
+				out := ""
+				for i, ci := range pg {
+					c := clients[ci]
+					got := status.Code(errs[i])
+					out += got.String() + ";"
+					if c.ok && errs[i] != nil {
+						r.Violate("token/concurrent/right-token-refused", fmt.Sprintf("client %s got %v while %d other clients were calling | trace %s", c.name, errs[i], len(pg)-1, sched.TraceStr(x)), cs)
+					}
+					if !c.ok && got != codes.Unauthenticated {
+						r.Violate("token/concurrent/call-without-the-token-accepted/"+c.name, fmt.Sprintf("client %s got %v (code %s) while a client with the right token was calling the same service | trace %s", c.name, errs[i], got, sched.TraceStr(x)), cs)
+					}
+				}
+				r.Outcome(fmt.Sprint("auth-conc", pg, out), true)
+				return out
+			}}
+		res := ex.Run()
+		execs += res.Executions
+		points += res.Points
+	}
+	r.Extra("auth_concurrent_programs", len(progs))
+	r.Extra("auth_concurrent_executions", execs)
+	r.Extra("auth_concurrent_scheduling_decisions", points)
+}
+
 func runResumption(r *evid.Run, built []builtCfg, leaves []*leaf, right *ca) {
 	for _, a := range built {
 		for _, b := range built {
@@ -895,7 +969,7 @@ func runTLS(r *evid.Run) {
 
 func Run(r *evid.Run) {
 	r.Check = "c17"
-	r.Rule("tokens: for each token configuration {maintenance only, tables only, both, none} the real `regatta leader` and `regatta follower` binaries (built from the working tree) are started on unix sockets; every method of Tables (Create, Delete, List) and Maintenance (Backup stream, Restore stream, Reset) plus KV.Range and Cluster.Status as controls is called on both nodes with 14 authorization variants (absent, empty, right token under 3 scheme spellings, prefix, suffix, case-changed, trailing/leading space, Basic scheme, scheme only, token only, the other service's token): a configured service answers Unauthenticated to everything but the exact token and nothing changes; the right token is never Unauthenticated; unconfigured and other services are unaffected. TLS: real security.TLSInfo.ServerConfig() handshakes over in-memory pipes for 14 client certificates (no certificate, right/wrong CA, self-signed, CN variants, SAN variants, IP SAN) x {TrustedCAFile} x {ClientCertAuth} x {no restriction, AllowedCN, AllowedHostname, allowed IP, both (must be refused at configuration time)}; reference for hostname validity is x509's VerifyHostname; every ordered pair of those configurations (same certificate and key) x every client: a session obtained from the first must not carry a client past the second one's rules; the same 14 client certificates against the real `regatta leader` process on BOTH its TLS endpoints (client API by flags, replication by flags + config file) for {trusted CA + allowed CN, trusted CA + allowed hostname} x {client-cert-auth default, set}, one real gRPC call each; plus one leader whose endpoints share certificate and key but not the rules (replication: CA only, API: CA + allowed CN): a client the API refuses visits the replication endpoint first and then the API with the same TLS session cache. The binary is built with the repository's own toolchain. Non-trivial: all; distinct = distinct (case, outcome)")
+	r.Rule("tokens, concurrent: one instance of the commands' authorization function called by 2-3 clients at once (right token, another token, no token; 6 programs), every interleaving at statement granularity up to 3 preemptions: each call decided on its own metadata; tokens: for each token configuration {maintenance only, tables only, both, none} the real `regatta leader` and `regatta follower` binaries (built from the working tree) are started on unix sockets; every method of Tables (Create, Delete, List) and Maintenance (Backup stream, Restore stream, Reset) plus KV.Range and Cluster.Status as controls is called on both nodes with 14 authorization variants (absent, empty, right token under 3 scheme spellings, prefix, suffix, case-changed, trailing/leading space, Basic scheme, scheme only, token only, the other service's token): a configured service answers Unauthenticated to everything but the exact token and nothing changes; the right token is never Unauthenticated; unconfigured and other services are unaffected. TLS: real security.TLSInfo.ServerConfig() handshakes over in-memory pipes for 14 client certificates (no certificate, right/wrong CA, self-signed, CN variants, SAN variants, IP SAN) x {TrustedCAFile} x {ClientCertAuth} x {no restriction, AllowedCN, AllowedHostname, allowed IP, both (must be refused at configuration time)}; reference for hostname validity is x509's VerifyHostname; every ordered pair of those configurations (same certificate and key) x every client: a session obtained from the first must not carry a client past the second one's rules; the same 14 client certificates against the real `regatta leader` process on BOTH its TLS endpoints (client API by flags, replication by flags + config file) for {trusted CA + allowed CN, trusted CA + allowed hostname} x {client-cert-auth default, set}, one real gRPC call each; plus one leader whose endpoints share certificate and key but not the rules (replication: CA only, API: CA + allowed CN): a client the API refuses visits the replication endpoint first and then the API with the same TLS session cache. The binary is built with the repository's own toolchain. Non-trivial: all; distinct = distinct (case, outcome)")
 	bin := filepath.Join(evid.VerifDir, ".bin", "regatta-c17")
 	args := []string{"build"}
 	if ov := os.Getenv("VERIF_BUILD_OVERLAY"); ov != "" {
@@ -912,6 +986,7 @@ func Run(r *evid.Run) {
 		os.Exit(2)
 	}
 	defer os.Remove(bin)
+	runAuthConcurrent(r)
 	runTokens(r, bin)
 	runTLS(r)
 	runTLSBinaries(r, bin)
